@@ -283,8 +283,8 @@ theorem export_movable (c : Circuit) (P : List Pos) (hlen : P.length = (c.cells.
 
 /-- **Legalizing twice = legalizing once**, for every single-row design of the domain and every key
 rounding that keeps the left-to-right order on the first result. -/
-theorem legalizeWith_twice (rnd : Rat → Rat) (p : Params) (c c' : Circuit) (hd : DomL c) (hs : SingleRow c)
-    (h : legalizeWith rnd p c = .ok c') (hk : KeyOrder rnd p (movable c')) :
+theorem legalizeWith_twice_seg (rnd : Rat → Rat) (p : Params) (c c' : Circuit) (hd : DomL c) (hs : SingleRow c)
+    (h : legalizeWith rnd p c = .ok c') (hk : KeyOrderSeg rnd p c'.computeRows (movable c')) :
     legalizeWith rnd p c' = .ok c' := by
   have hlegal : LegalL c' := legalizeWith_legal rnd p c c' hd h
   obtain ⟨hp, b1, b2, h1, h2, hall, rfl⟩ := legalizeWith_ok rnd p c _ h
@@ -368,6 +368,12 @@ theorem legalizeWith_twice (rnd : Rat → Rat) (p : Params) (c c' : Circuit) (hd
     simp only [toLCell] at this
     rw [q7, q6]
     exact this
-  exact legalizeWith_fixed rnd p _ hp hdc hsr hlegal hol hk
+  exact legalizeWith_fixed_seg rnd p _ hp hdc hsr hlegal hol hk
+
+/-- the same under the row-wide hypothesis `KeyOrder` -/
+theorem legalizeWith_twice (rnd : Rat → Rat) (p : Params) (c c' : Circuit) (hd : DomL c) (hs : SingleRow c)
+    (h : legalizeWith rnd p c = .ok c') (hk : KeyOrder rnd p (movable c')) :
+    legalizeWith rnd p c' = .ok c' :=
+  legalizeWith_twice_seg rnd p c c' hd hs h (hk.toSeg _)
 
 end ColoVerif.Legalize
